@@ -374,12 +374,12 @@ void h_decompress(void)
     if (w_sz >= 8) { g_ver0 = BE32(tbl); g_hdr0 = BE32(tbl + 4); }
     Error e = Table_decompress(t);
     int w_lz4_ret = g_lz4_ret; (void)w_lz4_ret;
+    const bool accepted = e._e == 0 && t->_compressed && t->_p != NULL;
     /* the caller's duties, so that the leak check sees only what decompress itself left behind */
     if (t->_compressed && t->_p) free((void *)t->_p);
     if (g_led.b[g_slot].out) free((void *)g_led.b[g_slot].ptr);
     free(t); free(face);
-    (void)e;
-    CANARY();
+    if (accepted) CANARY();                   /* vacuity guard on the deepest path: an LZ4 table was accepted */
 }
 #endif
 
@@ -427,6 +427,7 @@ void h_lifecycle(void)
     /* Face::Table x(face, tag, version) */
     Table_ctor(t, face, nondet_unsigned(), nondet_unsigned());
     int w_lz4_ret = g_lz4_ret; (void)w_lz4_ret;
+    const bool accepted = t->_compressed && t->_p != NULL;
     Table_default_ctor(u);
     if (w_path == 1) {                       /* m_pGlat = Face::Table(face, Tag::Glat, ..): temporary moved into an empty member, temporary destroyed */
         Table_move_assign(u, t);
@@ -455,6 +456,6 @@ void h_lifecycle(void)
         if (g_led.b[0].out) free((void *)tbl);                 /* the client keeps ownership: not a library leak */
     }
     free(t); free(u); free(v); free(face);
-    CANARY();
+    if (accepted && w_path == 1) CANARY();    /* vacuity guard on the deepest path: a decompressed table moved into another Table, both destroyed */
 }
 #endif
